@@ -403,4 +403,190 @@ theorem not_hasSetL_of_maxIdL_lt (j : Nat) : ∀ l : List Node, maxIdL l < j →
       simp [hasSetL, not_hasSet_of_maxId_lt j x (by omega), not_hasSetL_of_maxIdL_lt j xs (by omega)]
 end
 
+/-! ## lifted to layers and documents -/
+
+
+theorem Layer.updBind_absorb (id : Nat) (v w : Node) (l : Layer) :
+    (l.updBind id v).updBind id w = l.updBind id w := by
+  simp [Layer.updBind, Nima.updBindL_absorb]
+theorem Layer.updBind_comm (i j : Nat) (v w : Node) (hij : i ≠ j)
+    (hv : Node.hasBind j v = false) (hw : Node.hasBind i w = false) (l : Layer) :
+    (l.updBind j w).updBind i v = (l.updBind i v).updBind j w := by
+  simp [Layer.updBind, Nima.updBindL_comm i j v w hij hv hw]
+theorem Layer.updBind_of_not_hasBind (j : Nat) (v : Node) (l : Layer) (h : l.hasBind j = false) :
+    l.updBind j v = l := by
+  simp only [Layer.hasBind, Bool.or_eq_false_iff] at h
+  simp [Layer.updBind, updBindL_of_not_hasBind j v _ h.1, updBindL_of_not_hasBind j v _ h.2]
+theorem Layer.frames_updBind (id : Nat) (v : Node) (l : Layer) :
+    (l.updBind id v).frames id = l.frames id := by
+  simp [Layer.updBind, Layer.frames, framesL_updBind]
+theorem Layer.updSet_fuse (sid : Nat) (f g : Node → Node)
+    (hf : ∀ vs o m r, (f (.set sid vs o m r)).setSid? = some sid) (l : Layer) :
+    (l.updSet sid f).updSet sid g = l.updSet sid (fun x => g (f x)) := by
+  simp [Layer.updSet, Nima.updSetL_fuse sid f g hf]
+theorem Layer.updSet_of_not_hasSet (s : Nat) (f : Node → Node) (l : Layer) (h : l.hasSet s = false) :
+    l.updSet s f = l := by
+  simp only [Layer.hasSet, Bool.or_eq_false_iff] at h
+  simp [Layer.updSet, updSetL_of_not_hasSet s f _ h.1, updSetL_of_not_hasSet s f _ h.2]
+
+theorem Doc.updBind_absorb (id : Nat) (v w : Node) (d : Doc) :
+    (d.updBind id v).updBind id w = d.updBind id w := by
+  simp [Doc.updBind, Nima.updBind_absorb, Nima.updBindL_absorb, Layer.updBind_absorb, Function.comp_def]
+
+/-- `Doc.updBind id v ∘ Doc.updBind id v = Doc.updBind id v` -/
+theorem Doc.updBind_idem (id : Nat) (v : Node) (d : Doc) :
+    (d.updBind id v).updBind id v = d.updBind id v := Doc.updBind_absorb id v v d
+
+theorem Doc.updBind_comm (i j : Nat) (v w : Node) (hij : i ≠ j)
+    (hv : Node.hasBind j v = false) (hw : Node.hasBind i w = false) (d : Doc) :
+    (d.updBind j w).updBind i v = (d.updBind i v).updBind j w := by
+  simp [Doc.updBind, Nima.updBind_comm i j v w hij hv hw, Nima.updBindL_comm i j v w hij hv hw,
+    Layer.updBind_comm i j v w hij hv hw, Function.comp_def]
+
+theorem Doc.updBind_of_not_hasBind (j : Nat) (v : Node) (d : Doc) (h : d.hasBind j = false) :
+    d.updBind j v = d := by
+  simp only [Doc.hasBind, Bool.or_eq_false_iff, List.any_eq_false] at h
+  obtain ⟨⟨⟨⟨⟨h1, h2⟩, h3⟩, h4⟩, h5⟩, h6⟩ := h
+  have e4 : d.stack.map (Layer.updBind j v) = d.stack := by
+    conv => rhs; rw [← List.map_id d.stack]
+    apply List.map_congr_left
+    intro l hl
+    exact Layer.updBind_of_not_hasBind j v l (by simpa using h4 l hl)
+  have e5 : d.topScope.map (updBindL j v) = d.topScope := by
+    cases ht : d.topScope with
+    | none => rfl
+    | some s => rw [ht] at h5; simp at h5; simp [updBindL_of_not_hasBind j v s h5]
+  have e6 : d.scratch.map (Node.updBind j v) = d.scratch := by
+    cases ht : d.scratch with
+    | none => rfl
+    | some s => rw [ht] at h6; simp at h6; simp [Nima.updBind_of_not_hasBind j v s h6]
+  simp only [Doc.updBind, Nima.updBind_of_not_hasBind j v _ h1, updBindL_of_not_hasBind j v _ h2,
+    updBindL_of_not_hasBind j v _ h3, e4, e5, e6]
+
+
+theorem Doc.frames_updBind (id : Nat) (v : Node) (d : Doc) :
+    (d.updBind id v).frames id = d.frames id := by
+  have e4 : (d.stack.map (Layer.updBind id v)).flatMap (·.frames id) = d.stack.flatMap (·.frames id) := by
+    simp [List.flatMap_map, Layer.frames_updBind]
+  have e5 : ((d.topScope.map (updBindL id v)).map (framesL id)).getD [] =
+      (d.topScope.map (framesL id)).getD [] := by
+    cases d.topScope <;> simp [Nima.framesL_updBind]
+  have e6 : ((d.scratch.map (Node.updBind id v)).map (Node.frames id)).getD [] =
+      (d.scratch.map (Node.frames id)).getD [] := by
+    cases d.scratch <;> simp [Nima.frames_updBind]
+  simp only [Doc.frames, Doc.updBind, Nima.frames_updBind, Nima.framesL_updBind, e4, e5, e6]
+
+theorem Doc.updSet_fuse (sid : Nat) (f g : Node → Node)
+    (hf : ∀ vs o m r, (f (.set sid vs o m r)).setSid? = some sid) (d : Doc) :
+    (d.updSet sid f).updSet sid g = d.updSet sid (fun x => g (f x)) := by
+  simp [Doc.updSet, Nima.updSet_fuse sid f g hf, Nima.updSetL_fuse sid f g hf,
+    Layer.updSet_fuse sid f g hf, Function.comp_def]
+
+theorem Doc.updSet_of_not_hasSet (s : Nat) (f : Node → Node) (d : Doc) (h : d.hasSet s = false) :
+    d.updSet s f = d := by
+  simp only [Doc.hasSet, Bool.or_eq_false_iff, List.any_eq_false] at h
+  obtain ⟨⟨⟨⟨⟨h1, h2⟩, h3⟩, h4⟩, h5⟩, h6⟩ := h
+  have e4 : d.stack.map (Layer.updSet s f) = d.stack := by
+    conv => rhs; rw [← List.map_id d.stack]
+    apply List.map_congr_left
+    intro l hl
+    exact Layer.updSet_of_not_hasSet s f l (by simpa using h4 l hl)
+  have e5 : d.topScope.map (updSetL s f) = d.topScope := by
+    cases ht : d.topScope with
+    | none => rfl
+    | some x => rw [ht] at h5; simp at h5; simp [updSetL_of_not_hasSet s f x h5]
+  have e6 : d.scratch.map (Node.updSet s f) = d.scratch := by
+    cases ht : d.scratch with
+    | none => rfl
+    | some x => rw [ht] at h6; simp at h6; simp [Nima.updSet_of_not_hasSet s f x h6]
+  simp only [Doc.updSet, Nima.updSet_of_not_hasSet s f _ h1, updSetL_of_not_hasSet s f _ h2,
+    updSetL_of_not_hasSet s f _ h3, e4, e5, e6]
+
+/-! fields an update by identity does not touch -/
+section fields
+variable (id : Nat) (v : Node) (f : Node → Node) (d : Doc)
+@[simp] theorem Doc.updBind_noTarget : (d.updBind id v).noTarget = d.noTarget := rfl
+@[simp] theorem Doc.updBind_tBefore : (d.updBind id v).tBefore = d.tBefore := rfl
+@[simp] theorem Doc.updBind_tAfter : (d.updBind id v).tAfter = d.tAfter := rfl
+@[simp] theorem Doc.updBind_stBodyBefore : (d.updBind id v).stBodyBefore = d.stBodyBefore := rfl
+@[simp] theorem Doc.updBind_stBodyAfter : (d.updBind id v).stBodyAfter = d.stBodyAfter := rfl
+@[simp] theorem Doc.updBind_stAfterLet : (d.updBind id v).stAfterLet = d.stAfterLet := rfl
+@[simp] theorem Doc.updBind_trailing : (d.updBind id v).trailing = d.trailing := rfl
+@[simp] theorem Doc.updBind_next : (d.updBind id v).next = d.next := rfl
+@[simp] theorem Doc.updBind_rstripped : (d.updBind id v).rstripped = d.rstripped := rfl
+@[simp] theorem Doc.updBind_target : (d.updBind id v).target = Node.updBind id v d.target := rfl
+@[simp] theorem Doc.updBind_scope : (d.updBind id v).scope = updBindL id v d.scope := rfl
+@[simp] theorem Doc.updBind_stOrder : (d.updBind id v).stOrder = updBindL id v d.stOrder := rfl
+@[simp] theorem Doc.updBind_stack : (d.updBind id v).stack = d.stack.map (Layer.updBind id v) := rfl
+@[simp] theorem Doc.updBind_topScope : (d.updBind id v).topScope = d.topScope.map (updBindL id v) := rfl
+@[simp] theorem Doc.updBind_scratch : (d.updBind id v).scratch = d.scratch.map (Node.updBind id v) := rfl
+@[simp] theorem Doc.updSet_noTarget : (d.updSet id f).noTarget = d.noTarget := rfl
+@[simp] theorem Doc.updSet_tBefore : (d.updSet id f).tBefore = d.tBefore := rfl
+@[simp] theorem Doc.updSet_tAfter : (d.updSet id f).tAfter = d.tAfter := rfl
+@[simp] theorem Doc.updSet_stBodyBefore : (d.updSet id f).stBodyBefore = d.stBodyBefore := rfl
+@[simp] theorem Doc.updSet_stBodyAfter : (d.updSet id f).stBodyAfter = d.stBodyAfter := rfl
+@[simp] theorem Doc.updSet_stAfterLet : (d.updSet id f).stAfterLet = d.stAfterLet := rfl
+@[simp] theorem Doc.updSet_trailing : (d.updSet id f).trailing = d.trailing := rfl
+@[simp] theorem Doc.updSet_next : (d.updSet id f).next = d.next := rfl
+@[simp] theorem Doc.updSet_rstripped : (d.updSet id f).rstripped = d.rstripped := rfl
+@[simp] theorem Doc.updSet_target : (d.updSet id f).target = Node.updSet id f d.target := rfl
+@[simp] theorem Doc.updSet_scope : (d.updSet id f).scope = updSetL id f d.scope := rfl
+@[simp] theorem Doc.updSet_stOrder : (d.updSet id f).stOrder = updSetL id f d.stOrder := rfl
+@[simp] theorem Doc.updSet_stack : (d.updSet id f).stack = d.stack.map (Layer.updSet id f) := rfl
+@[simp] theorem Doc.updSet_topScope : (d.updSet id f).topScope = d.topScope.map (updSetL id f) := rfl
+@[simp] theorem Doc.updSet_scratch : (d.updSet id f).scratch = d.scratch.map (Node.updSet id f) := rfl
+end fields
+
+/-! identities at or above `maxId + 1` do not occur in the document -/
+
+theorem Layer.not_has_of_maxId_lt (j : Nat) (l : Layer) (h : l.maxId < j) :
+    l.hasBind j = false ∧ l.hasSet j = false := by
+  simp only [Layer.maxId] at h
+  simp [Layer.hasBind, Layer.hasSet, not_hasBindL_of_maxIdL_lt j l.scope (by omega),
+    not_hasBindL_of_maxIdL_lt j l.order (by omega), not_hasSetL_of_maxIdL_lt j l.scope (by omega),
+    not_hasSetL_of_maxIdL_lt j l.order (by omega)]
+
+theorem stack_maxId_le (ls : List Layer) (l : Layer) (hl : l ∈ ls) :
+    l.maxId ≤ ls.foldr (fun l m => max l.maxId m) 0 := by
+  induction ls with
+  | nil => cases hl
+  | cons x xs ih =>
+    simp only [List.foldr_cons]
+    rcases List.mem_cons.1 hl with rfl | h
+    · omega
+    · have := ih h; omega
+
+theorem Doc.not_has_of_maxId_lt (j : Nat) (d : Doc) (h : d.maxId < j) :
+    d.hasBind j = false ∧ d.hasSet j = false := by
+  simp only [Doc.maxId] at h
+  have hst : ∀ l ∈ d.stack, l.hasBind j = false ∧ l.hasSet j = false := fun l hl =>
+    Layer.not_has_of_maxId_lt j l (by have := stack_maxId_le d.stack l hl; omega)
+  have h5 : (d.topScope.map (hasBindL j)).getD false = false ∧
+      (d.topScope.map (hasSetL j)).getD false = false := by
+    cases ht : d.topScope with
+    | none => simp
+    | some s =>
+      rw [ht] at h; simp only [Option.map_some, Option.getD_some] at h ⊢
+      exact ⟨not_hasBindL_of_maxIdL_lt j s (by omega), not_hasSetL_of_maxIdL_lt j s (by omega)⟩
+  have h6 : (d.scratch.map (Node.hasBind j)).getD false = false ∧
+      (d.scratch.map (Node.hasSet j)).getD false = false := by
+    cases ht : d.scratch with
+    | none => simp
+    | some s =>
+      rw [ht] at h; simp only [Option.map_some, Option.getD_some] at h ⊢
+      exact ⟨not_hasBind_of_maxId_lt j s (by omega), not_hasSet_of_maxId_lt j s (by omega)⟩
+  have hs1 : d.stack.any (·.hasBind j) = false := by
+    simp only [List.any_eq_false]; intro l hl; simp [(hst l hl).1]
+  have hs2 : d.stack.any (·.hasSet j) = false := by
+    simp only [List.any_eq_false]; intro l hl; simp [(hst l hl).2]
+  simp only [Doc.hasBind, Doc.hasSet, not_hasBind_of_maxId_lt j d.target (by omega),
+    not_hasBindL_of_maxIdL_lt j d.scope (by omega), not_hasBindL_of_maxIdL_lt j d.stOrder (by omega),
+    not_hasSet_of_maxId_lt j d.target (by omega),
+    not_hasSetL_of_maxIdL_lt j d.scope (by omega), not_hasSetL_of_maxIdL_lt j d.stOrder (by omega),
+    hs1, hs2, h5.1, h5.2, h6.1, h6.2, Bool.or_self, and_self]
+
+theorem Doc.Fresh.not_has {d : Doc} (h : d.Fresh) (j : Nat) (hj : d.next ≤ j) :
+    d.hasBind j = false ∧ d.hasSet j = false :=
+  Doc.not_has_of_maxId_lt j d (by have := h.1; omega)
+
 end Nima
